@@ -12,7 +12,7 @@ let zs l = List.map z_of_string l
 let pzs l = List.map string_of_z l
 
 (* kind -> (model observation, monitor on an observation: None = ok, Some reason = violates) *)
-let kinds : (string, (string list -> string list) * (string list -> string list -> string option)) Hashtbl.t = Hashtbl.create 64
+let kinds : (ostring, (ostring list -> ostring list) * (ostring list -> ostring list -> ostring option)) Hashtbl.t = Hashtbl.create 64
 let reg k m mon = Hashtbl.replace kinds k (m, mon)
 let no_monitor _ _ = None
 (* for kinds whose expected answer is fixed by the property text itself: disagreement with the model IS the violation *)
@@ -26,6 +26,7 @@ let () =
     (fun _ obs -> if shardset_ok (zs obs) then None else Some "event not handled by exactly one shard")
 
 let () = Kinds_extra.register reg
+let () = Kinds_graph.register reg
 
 let () =
   let emit = Array.length Sys.argv > 2 && Sys.argv.(2) = "-emit" in
